@@ -230,6 +230,15 @@ func objStmCorpus() []corpusEntry {
 	s3, s4 = plain(3, 10), plain(4, 20)
 	s3.asRef = 4
 	res = append(res, corpusEntry{"objstm-is-reference-to-stream", (&osFile{streams: []osStream{s3, s4}}).build()})
+	// members that look like streams, with an indirect /Length that is the
+	// member itself, another such member, or a member of another object stream
+	ms := func(l int) string { return fmt.Sprintf("<< /Length %d 0 R >>\nstream\nabc\nendstream", l) }
+	s3 = osStream{num: 3, members: []osMember{{10, ms(10)}, {11, ms(12)}, {12, ms(11)}}}
+	res = append(res, corpusEntry{"objstm-member-stream-length-self", (&osFile{streams: []osStream{s3}}).build()})
+	s3 = osStream{num: 3, members: []osMember{{10, ms(20)}, {11, "3"}, {12, ms(30)}}}
+	s4 = osStream{num: 4, members: []osMember{{20, ms(10)}, {21, ms(11)}, {22, ms(21)}}}
+	res = append(res, corpusEntry{"objstm-member-stream-length-mutual", (&osFile{streams: []osStream{s3, s4},
+		ordinary: map[int]string{30: "10 0 R"}}).build()})
 	// /Extends chains and loops
 	s3, s4 = plain(3, 10), plain(4, 20)
 	s3.extra, s4.extra = "/Extends 4 0 R", "/Extends 3 0 R"
